@@ -44,11 +44,14 @@ const vDeclSize = 5 // declared size in the resource name (the relation to the b
 
 // vWriteIdentity: an upload to uploads/<uuid>/blobs/<hash>/5 in 1..maxMsgs
 // messages of arbitrary lengths.
-func vWriteIdentity(maxMsgs int) {
+func vWriteIdentity(maxMsgs int) { vWriteIdentityX(maxMsgs, 3) }
+
+// preCases: 2 = the blob is absent or present; 3 = also "the hash is cached with another size"
+func vWriteIdentityX(maxMsgs int, preCases int) {
 	c := &vCache{maxBlobSize: vsym.Int64("maxBlobSize"), good: map[string]bool{}, exists: map[string]bool{}, existsSize: map[string]int64{}}
 	vsym.Assume(c.maxBlobSize > 0)
 	pre := false
-	switch vsym.Choose("preexisting", 3) {
+	switch vsym.Choose("preexisting", preCases) {
 	case 1:
 		pre = true
 		c.exists[vHashA] = true
@@ -107,7 +110,7 @@ func vWriteIdentity(maxMsgs int) {
 	err := s.Write(st)
 
 	live := vsym.Quiesce()
-	vsym.Assert(live == 0, "bytestream/C14-no-goroutine-left-after-Write")
+	vsym.Assert(live == 0, "bytestream/C07-C14-no-goroutine-left-after-Write")
 	stored := c.stored(cache.CAS, vHashA)
 	if err == nil {
 		vsym.Reach("write-ok")
@@ -125,7 +128,7 @@ func vWriteIdentity(maxMsgs int) {
 			vsym.Assert(vDeclSize <= c.maxBlobSize, "bytestream/C18-oversize-upload-accepted")
 		} else {
 			vsym.Reach("write-ok-preexisting")
-			vsym.Assert(pre, "bytestream/C01-acknowledged-although-not-stored-and-not-present")
+			vsym.Assert(pre, "bytestream/C01-C16-acknowledged-although-not-stored-and-not-present")
 			vsym.Assert(st.resp.CommittedSize == vDeclSize, "bytestream/C16-early-return-reports-blob-size")
 		}
 	} else {
@@ -197,7 +200,7 @@ func vWriteZstd(maxMsgs int) {
 	err := s.Write(st)
 
 	live := vsym.Quiesce()
-	vsym.Assert(live == 0, "bytestream/C14-no-goroutine-left-after-Write")
+	vsym.Assert(live == 0, "bytestream/C07-C14-no-goroutine-left-after-Write")
 	stored := c.stored(cache.CAS, vHashA)
 	goodBlob := vsym.And(vsym.And(vsym.Not(vmodel.ZstdUpload.Corrupt), vmodel.ZstdUpload.DecodedLen == vDeclSize), c.good["client-decoded"])
 	if err == nil {
@@ -214,7 +217,7 @@ func vWriteZstd(maxMsgs int) {
 			vsym.Assert(vDeclSize <= c.maxBlobSize, "bytestream/C18-oversize-upload-accepted")
 		} else {
 			vsym.Reach("zstd-write-ok-preexisting")
-			vsym.Assert(pre, "bytestream/C01-acknowledged-although-not-stored-and-not-present")
+			vsym.Assert(pre, "bytestream/C01-C16-acknowledged-although-not-stored-and-not-present")
 			vsym.Assert(st.resp.CommittedSize == -1, "bytestream/C16-early-return-for-compressed-upload-reports-minus-one")
 		}
 	} else {
@@ -228,7 +231,7 @@ func vWriteZstd(maxMsgs int) {
 func VerifBytestreamWriteZstd2() { vWriteZstd(2) }
 
 func VerifBytestreamWrite2() { vWriteIdentity(2) }
-func VerifBytestreamWrite3() { vWriteIdentity(3) }
+func VerifBytestreamWrite3() { vWriteIdentityX(3, 2) }
 
 // ---- QueryWriteStatus
 
